@@ -3,7 +3,8 @@ import Rivaas.Spec.Contain
 /-
 Driver for C10. Case lines (see harness/c10/main.go):
 
-  <id> R <check> <wrap> <global> <chain> => <result> <nf> <result>*
+  <id> R <check> <compiled> <wrap> <global> <chain> => <result> <nf> <result>*
+      compiled = router.WithRouteCompilation (which serve path runs the chain): read and ignored by the model
       chain  = n (hid acts)…       acts = n act…   act = N | A | C | W | R | P v | K acts
       result = <trace: n ev…> <status> <body: n chunk…> <escaped: 0 | 1 v>
       model chain: position 0 = recovery (`recovers`, acts [Next]); position 1 = the timeout
@@ -104,7 +105,7 @@ def silent (wrap : Bool) : List Prog :=
 
 def stepR (id : String) (inp obs : List String) : String :=
   let pIn : P (Bool × Bool × Nat × List (Nat × List Act)) := do
-    let check ← bool; let wrap ← bool; let g ← nat
+    let check ← bool; let _compiled ← bool; let wrap ← bool; let g ← nat
     let ch ← list (do let h ← nat; let a ← pActs 8; pure (h, a))
     pure (check, wrap, g, ch)
   let pOut : P (Res × List Res) := do let r ← pRes; let fs ← list pRes; pure (r, fs)
